@@ -137,6 +137,9 @@ def make_valid(kind, prng):
         v = prng.uniform(0.01, 50)
         return prng.choice([v * u.arcsec, v * u.deg / 100, Angle(v, 'arcmin'), u.Quantity(np.float32(1.5), u.rad) / 100])
     if kind == 'angle':
+        if prng.random() < 0.12:
+            # any finite angle is an angle: many turns, either sign, any angular unit
+            return prng.choice([4e8 * u.deg, -4e8 * u.deg, 1e7 * u.rad, 1e300 * u.deg, Angle(-7.25e9, 'arcmin'), 123456789.5 * u.deg, 2 ** 40 * u.hourangle])
         return S.build(gen.angle_spec(prng))
     if kind == 'pix-scalar':
         return PixCoord(prng.uniform(-50, 50), prng.choice([prng.uniform(-50, 50), 3]))
